@@ -117,15 +117,18 @@ RULE = ("flat classes (1..5 fields: Integer/Number/Float incl. sign variants, St
         "model exception class / class prefix / path / shape vs str(exception); model parse vs the real ErrorInfo(s). "
         "Oracle: the property statement on the real results with the invalid set computed by Lean `validate`. "
         "Plus a DEEP stream: classes whose fields are collections nested 2..3 levels (every combination of Array/Deque/Tuple/Set/Map, homogeneous "
-        "and positional) over scalars and class references, and top-level class-reference fields; ONE position at a random depth of one or two "
+        "and positional) over scalars and nested structures (class references anywhere; inline StructureReference as direct fields only - inside "
+        "collections an inline structure is deserialized without the aggregated mapper and a null field becomes a value: a region of the `deser` "
+        "model kept out), collections of class references, and top-level nested-structure fields; ONE position at a random depth of one or two "
         "fields made invalid (boundary neighbour of the declaration AT that position, payload text, other type); constructor and both "
         "deserialization entry points, fail-fast on/off; compared: the full suffix chain (Lean `locate`), deser accept/reject + exception class "
         "(Lean `deser` on the definition-order class dump), the head every message must begin with (Lean `dHead`); oracle additionally: the path "
         "names the rejected POSITION (wrong-position:suffix-chain). Plus a CLASS-NAME stream: classes used directly and through Partial / "
         "AllFieldsRequired / Extend / Omit / Pick (without / with explicit name), a subclass of a derived class, a local class (__qualname__ != "
         "__name__), and type() classes with unusual names (digits, underscores, dots, non-ASCII letters; combining mark, space, '-', '[' = the "
-        "finding's region); the derived class NAME is the model's (Lean `derivedName`), a non-word character that no user-chosen name contains is "
-        "a separate failure (field-lost:non-word-name:generated-class-name).")
+        "finding's region); whether a derived class's NAME stays in the field group is the model's prediction (Lean `derivedName`; a harmless "
+        "renaming is no alarm), a non-word character that no user-chosen name contains is a separate failure "
+        "(field-lost:non-word-name:generated-class-name).")
 ASSUMPTIONS = [
     "Python's json module is an oracle (Codec): the only law assumed in theorems is loads(dumps(xs)) = xs on lists of strings (explicit hypothesis); the driver instantiates it with Lean.Data.Json",
     "Python's str.isalnum (what \\w matches) is an oracle (Word): assumed only to contain ASCII letters/digits and not ':'; the harness supplies its answers for the non-ASCII characters of each message",
